@@ -1073,13 +1073,12 @@ class Server(utils.EventEmitter):
                 self.send_response(bearer, response)
                 return
             length = len(attribute_value)
-            # Check the attribute value size
-            max_attribute_size = min(bearer.att_mtu - 3, 251)
-            if len(attribute_value) > max_attribute_size:
-                # We need to truncate
-                attribute_value = attribute_value[:max_attribute_size]
 
-            # Check if there is enough space
+            # Check if there is enough space for the length and at least part of the
+            # value (the last value of the response may be truncated)
+            if pdu_space_available < 2:
+                break
+            attribute_value = attribute_value[: pdu_space_available - 2]
             entry_size = 2 + len(attribute_value)
 
             # Add the attribute to the list
